@@ -1,11 +1,15 @@
 (* C09 — parameters are validated: accepted <=> inside the advertised limits.
-   Params.v mirrors the decisions of the three set_fec_parameters functions on the 32-bit values the
-   C sees, with the limits re-read from /repo's headers on every run (gen/GenConsts.v); the check
-   compares these decision functions with the compiled C on an exhaustive boundary grid.
+   Params.v holds the decisions of the three set_fec_parameters functions on the 32-bit values the
+   C sees, with the limits re-read from /repo's headers on every run (gen/GenConsts.v).  They are TIED TO THE SOURCE TEXT:
+   gen/GenParams.v is regenerated on every run from the parameter checks at the head of the three functions and of the
+   matrix construction (tools/gen_params.py; clang parses, c2gallina gives the expressions C's integer semantics), and the
+   theorems *_source_checks_* below prove, for every value the C types can hold, that the generated code is defined and
+   decides exactly accept_*.  The check also compares the decisions with the compiled C on an exhaustive boundary grid.
    RS over GF(2^m) is a known finding: n is never compared with the field size (the repository's own
    test RS_2m_4.src1 relies on it), so the full statement is refuted there and holds outside that class. *)
 From Coq Require Import ZArith Bool.
-From OFV Require Import Params ParamsProofs.
+From OFV Require Import CSem Params ParamsProofs ParamsTie.
+From OFV.gen Require Import GenConsts GenParams.
 Local Open Scope Z_scope.
 
 Theorem accept_ldpc_iff_limits : forall k r L n1 seed,
@@ -31,6 +35,30 @@ Example accepted_at_the_limits : accept_ldpc 50000 0 1 3 1 = false /\ accept_ldp
   accept_rs28 254 1 1 = true /\ accept_rs28 255 1 1 = false /\ accept_rs2m 8 200 55 7 = true.
 Proof. vm_compute. repeat split. Qed.
 
+(* ---- the decision functions are what the source text says (translator output) ---- *)
+Theorem rs28_source_checks_decide_accept : forall k r L, is_u32 k -> is_u32 r -> is_u32 L ->
+  rs28_prefix k c_rs28_max_k r L c_rs28_max_n = Some (accept_rs28 k r L).
+Proof. exact rs28_prefix_is_accept. Qed.
+Theorem rs2m_source_checks_decide_accept : forall m k r L, 0 <= m < 65536 -> is_u32 k -> is_u32 r -> is_u32 L ->
+  rs2m_prefix m k r L = Some (accept_rs2m m k r L).
+Proof. exact rs2m_prefix_is_accept. Qed.
+Theorem ldpc_source_checks_decide_accept : forall k r L n1 seed, is_u32 k -> is_u32 r -> is_u32 L -> 0 <= n1 < 256 ->
+  -2147483648 <= seed < 2147483648 ->
+  (ldpc_prefix n1 k r L seed c_ldpc_max_k c_ldpc_max_n = Some true /\ pchk_prefix r (u32 (k + r)) n1 (wrapu32 seed) = Some true)
+  <-> accept_ldpc k r L n1 seed = true.
+Proof. exact ldpc_checks_pass_iff_accept. Qed.
+Theorem ldpc_source_checks_never_undefined : forall k r L n1 seed, is_u32 k -> is_u32 r -> is_u32 L -> 0 <= n1 < 256 ->
+  -2147483648 <= seed < 2147483648 ->
+  match ldpc_prefix n1 k r L seed c_ldpc_max_k c_ldpc_max_n with
+  | Some true => pchk_prefix r (u32 (k + r)) n1 (wrapu32 seed) = Some (accept_ldpc k r L n1 seed)
+  | Some false => accept_ldpc k r L n1 seed = false
+  | None => False
+  end.
+Proof. exact ldpc_prefix_is_accept. Qed.
+
+Print Assumptions rs28_source_checks_decide_accept.
+Print Assumptions rs2m_source_checks_decide_accept.
+Print Assumptions ldpc_source_checks_decide_accept.
 Print Assumptions accept_ldpc_iff_limits.
 Print Assumptions accept_rs2m_iff_limits_holds_outside_class.
 
